@@ -56,6 +56,12 @@ type Descriptor struct {
 	// same Add call, including this one. They share one constructed instance.
 	aliases []*Descriptor
 
+	// outputs lists the descriptors of all services produced by the same
+	// constructor, including this one: one per non-error return value of a
+	// multi-return constructor (in return order) or one per field of a result
+	// object (in resultFields order). One invocation fills all of them.
+	outputs []*Descriptor
+
 	// Analysis results cached for performance
 	isFunc         bool
 	isResultObject bool
